@@ -204,6 +204,16 @@ func genSmallWL(t *rapid.T, capL int, premise bool, pool []string) gen.WLSpec {
 		w.Sep = gen.SepSpec{Kind: "const", Const: rapid.SampledFrom(gen.ConstSeps).Draw(t, "sepconst")}
 	case 2:
 		w.Sep = gen.SepSpec{Kind: "preset", Preset: rapid.SampledFrom([]string{"SFNone", "SFDigits1", "SFSymbols", "SFDigitsNoAmbiguous1"}).Draw(t, "preset")}
+	case 3:
+		// a caller-written separator function: picks uniformly among distinct
+		// values and reports its true entropy or (legitimately) under-claims 0
+		k := rapid.IntRange(2, 4).Draw(t, "draw_k")
+		vals := []string{"-", "+", "", "·x"}[:k]
+		ent := float32(0)
+		if rapid.Bool().Draw(t, "draw_true_entropy") {
+			ent = float32(math.Log2(float64(k)))
+		}
+		w.Sep = gen.SepSpec{Kind: "draw", Draw: vals, DrawEnt: ent}
 	default:
 		n := rapid.IntRange(1, 4).Draw(t, "sep_ab")
 		ab := ""
